@@ -186,19 +186,26 @@ func (t *htmlTemplate) processTagStart(node *Node, tokenBuf *strings.Builder,
 			cmd := strings.TrimPrefix(an, attrPrefix)
 			switch cmd {
 			case attrWith: // 赋值
+				if t.currentAttrIs(node, currentIsCond|currentIsRange) {
+					continue // 重新执行时 变量已经在 data 中 不能重复赋值
+				}
 				result, err := attr.WithAssign(data)
 				if err != nil {
 					return data, err
 				}
 				data = exp.Combine(exp.NewScope(result), data)
 			case attrIf, attrElse_If, attrElseIf, attrElIf, attrElse: // 条件控制
-				if err := t.processIfElse(node, attr, tokenBuf, data, opt); err != nil {
-					return data, err
+				if t.currentAttrIs(node, currentIsCond) {
+					continue // 重新执行的 跳过
 				}
+				// 满足条件时 processIfElse 已重新执行并输出了本节点 其余属性不能再处理一遍
+				return data, t.processIfElse(node, attr, tokenBuf, data, opt)
 			case attrRange: // 循环
-				if err := t.processRange(node, attr, tokenBuf, data); err != nil {
-					return data, err
+				if t.currentAttrIs(node, currentIsRange) {
+					continue // range 中, 多次执行时 不需要再处理 range
 				}
+				// processRange 已为每个元素重新执行并输出了本节点 其余属性不能再处理一遍
+				return data, t.processRange(node, attr, tokenBuf, data)
 			case attrRemove: // 移除
 				t.processRemoveAttr(node, attr, data, opt)
 			case attrText, attrRaw: // 替换内容
